@@ -48,7 +48,7 @@ type Work struct {
 	Cut     int    `json:"cut,omitempty"`      // >0: the source text handed to the interpreter ends after this many bytes (a program that arrives truncated)
 }
 
-const nSites = 126
+const nSites = 129
 const nWraps = 7
 
 func siteSrc(k int, id string) string {
@@ -315,6 +315,14 @@ func siteSrc(k int, id string) string {
 		return "qs" + id + " = [][]int64{[10, 20, 30], [40]}\nsm" + id + " = 0\nfor job" + id + " in qs" + id + "[0] {\nsm" + id + " += job" + id + "\nqs" + id + "[0] = []int64{}\nh(" + id + ")\n}"
 	case 124:
 		return "ls" + id + " = [1, 2, 3, 4]\nfor v" + id + " in ls" + id + " {\nls" + id + " = ls" + id + "[0:1]\n}\nts" + id + " = make([]int64, 3)\nfor w" + id + " in ts" + id + " {\nts" + id + " = ts" + id + "[:0]\nts" + id + " += h(" + id + ")\n}"
+	// loaded files whose last statement has no value, and an empty file
+	case 125:
+		return "load(libpath3)\nx" + id + " = load(libpath3)\ny" + id + " = [load(libpath4)]\nh(" + id + ")\nload(libpath4)"
+	case 126:
+		return "func lf" + id + "() { return load(libpath3) }\nz" + id + " = lf" + id + "()\ngo load(libpath4)\ndefer load(libpath3)"
+	// a callback the host keeps and calls after the run has returned and its context was released
+	case 127:
+		return "hlater(func() { lx" + id + " = 1 })\nlv" + id + " = 0\nhlater(func() { lv" + id + "++ })\nh(" + id + ")"
 	default:
 		return "x" + id + " = hid(1) & hid(\"z\")\ny" + id + " = hid(1.5) | hid(nil)\nz" + id + " = hid({}) ^ 1\nw" + id + " = hid([1, 2]) + hid({\"a\": 1})\nv" + id + " = hid(nil) < hid([1])\nu" + id + " = hid(func() { }) == hid(func() { })"
 	}
@@ -441,6 +449,8 @@ var libFiles = func() [2]string {
 	a, b := filepath.Join(dir, "lib_a.ank"), filepath.Join(dir, "lib_b.ank")
 	os.WriteFile(a, []byte("go keys(5)\ngo h(1)\nfunc libspawn() { go keys(7); go range(); defer keys(nil) }\nlibspawn()\n"), 0o644)
 	os.WriteFile(b, []byte("func(x) { go keys(x); go hv([x, 2]...); return h(x) }\n"), 0o644)
+	os.WriteFile(filepath.Join(dir, "lib_c.ank"), []byte("libc = 1\nfor i = 0; i < 1; i++ { }\n"), 0o644)
+	os.WriteFile(filepath.Join(dir, "lib_d.ank"), []byte(""), 0o644)
 	return [2]string{a, b}
 }()
 
@@ -474,6 +484,7 @@ func (Prop) Run(t *testing.T, c *harness.Case, verbose bool) *harness.Result {
 	var mainErr error
 	mainDone := false
 	hostPanic := ""
+	var later []func() // callbacks the host was handed and calls after the run
 	leaked := harness.Bubble(t, func() {
 		sim = simrt.New(c.Choices, 4000)
 		ctx := sim.NewCtx()
@@ -518,6 +529,14 @@ func (Prop) Run(t *testing.T, c *harness.Case, verbose bool) *harness.Result {
 		core.Import(e)
 		e.Define("libpath", libFiles[0])
 		e.Define("libpath2", libFiles[1])
+		e.Define("libpath3", filepath.Join(filepath.Dir(libFiles[0]), "lib_c.ank"))
+		e.Define("libpath4", filepath.Join(filepath.Dir(libFiles[0]), "lib_d.ank"))
+		e.Define("hlater", func(f func()) {
+			fault("hlater")
+			mu.Lock()
+			later = append(later, f)
+			mu.Unlock()
+		})
 		e.Define("h", func(id int64) int64 { fault("h"); return id })
 		e.Define("hid", func(x interface{}) interface{} { fault("hid"); return x })
 		e.Define("hv", func(xs ...int64) int64 { fault("hv"); return int64(len(xs)) })
@@ -578,6 +597,15 @@ func (Prop) Run(t *testing.T, c *harness.Case, verbose bool) *harness.Result {
 				_, mainErr = vm.ExecuteContext(ctx, e, &vm.Options{Debug: false}, src)
 			}
 			mainDone = true
+			// the host releases the run's context (defer cancel()) and, later, calls the callbacks it kept:
+			// functions that cannot fail by themselves must not panic on it
+			ctx.Cancel()
+			mu.Lock()
+			cbs := later
+			mu.Unlock()
+			for _, f := range cbs {
+				f()
+			}
 		})
 		res.Outcome = sim.Run()
 		sim.Teardown(func() { ctx.Cancel() })
